@@ -41,6 +41,12 @@ Lemmas used when facts are combined (`_lookup`, `_cv`):
   L2  `x is None` holds  =>  `x` is falsy;  `x` is truthy  =>  `x is not None`      (None is falsy);
   L3  a member of an enum of the C definitions compares equal to its integer value (dissect.cstruct enum semantics),
       so `s.type == SettingsType.TYPE_SHORT` and `s.type == 1` are the same atom.
+  L6  (module-level constant aliases, `_aliases`/`_unalias`) a name that beacon.py binds exactly once - by a plain
+      module-level `NAME = <dotted name | literal>` - and that no scope of the module binds again (no other store,
+      parameter, import, `global`, `del`, def/class of that name) denotes, wherever a function of the module loads
+      it, the value of its right-hand side: `_UA = BeaconSetting.SETTING_USERAGENT ... s.index == _UA` is the atom
+      `s.index == 9` (alias chains followed).  Constant propagation of single-definition names (3 + 6); a name that
+      fails the test is not a constant for `_cv`.
   L4  (cardinality classes, `_card`) a settings mapping filled with one insertion per record has one entry per
       *distinct* key: never more entries than records and strictly fewer as soon as two records share a key, which the
       quantifier of the property admits (duplicates allowed).  zip / map-over-several-iterables pair position by
@@ -99,8 +105,10 @@ R5  2 (CFG reachability / dominance: yield between parse and loop header, termin
     domain Z u {unknown}: read(c) +c, peek/tell +0, seek(c, SEEK_CUR) +c, seek(<tell() taken at offset o>) = o, else
     unknown - decides whether a look-ahead / the struct parse is at offset 0 of the scenario record; flags assigned a
     literal are constant facts of the path), 3 (`inline` of the tests), 6 (C definitions: first field of Setting).
-R6  2 (facts of the branch edges that dominate the rename / extension site), 3 (`inline` of the tests and of the
-    assigned value), 5 + 6 (enum members of the C definitions, 36, 9, 0x80); L1, L3.  "Continues to its NUL" at any
+R6  2 (facts of the branch edges that dominate the rename / extension site - all of them, so the order of mutually
+    exclusive if/elif branches is immaterial), 3 (`inline` of the tests and of the assigned value), 5 + 6 (enum members
+    of the C definitions, 36, 9, 0x80); L1, L3, L6.  A guard that establishes index/type/length equal to a term that is
+    not a constant of the code (`_guarded_eq` -> None) is undecided, not violated.  "Continues to its NUL" at any
     distance: 4 (upper bound, in the length domain of L5, of the bytes all extension sites can append to the value per
     record; a finite bound is a violation - the NUL may lie farther away -, inf discharges, a term outside the
     transfer rules is undecided), 3 (`inline` of the appended term, accumulator definitions), 6 (the read sizes and
@@ -162,9 +170,77 @@ def _enums(ctx):
     return hit
 
 
+def _aliases(ctx):
+    """name -> defining expression of the module-level *constant aliases* of beacon.py (the module whose C definitions
+    `_enums` reads and in which every function this module analyses lives): a name bound exactly once in the whole
+    module - by a plain `NAME = <dotted name or literal>` at module level - and never bound again anywhere (no other
+    store / parameter / loop or with target / import / `global` / `del` / walrus / except-as of that name in any scope
+    of the module), so that a load of the bare name in any function of the module denotes the value the right-hand
+    side had at import (constant propagation of a single-definition module constant; the right-hand side is a dotted
+    chain rooted at another module-level name - e.g. `BeaconSetting.SETTING_USERAGENT` - or a literal, neither of
+    which a later statement of the analysed functions rebinds)."""
+    hit = getattr(ctx, "_c02_aliases", None)
+    if hit is not None:
+        return hit
+    hit = {}
+    try:
+        mod = ctx.repo.module("beacon")
+    except Exception:
+        mod = None
+    if mod is not None:
+        binds, bad = {}, set()
+        for st in mod.tree.body:
+            if isinstance(st, ast.Assign) and len(st.targets) == 1 and isinstance(st.targets[0], ast.Name):
+                binds.setdefault(st.targets[0].id, []).append(st.value)
+            elif isinstance(st, ast.AnnAssign) and isinstance(st.target, ast.Name) and st.value is not None:
+                binds.setdefault(st.target.id, []).append(st.value)
+        stores = {}
+        for n in ast.walk(mod.tree):
+            if isinstance(n, ast.Name) and not isinstance(n.ctx, ast.Load):
+                stores[n.id] = stores.get(n.id, 0) + 1
+            elif isinstance(n, ast.arg):
+                bad.add(n.arg)
+            elif isinstance(n, (ast.Global, ast.Nonlocal)):
+                bad.update(n.names)
+            elif isinstance(n, (ast.Import, ast.ImportFrom)):
+                bad.update((a.asname or a.name).split(".")[0] for a in n.names)
+            elif isinstance(n, (ast.FunctionDef, ast.AsyncFunctionDef, ast.ClassDef)):
+                bad.add(n.name)
+            elif isinstance(n, ast.ExceptHandler) and n.name:
+                bad.add(n.name)
+            elif isinstance(n, (ast.MatchAs, ast.MatchStar)) and n.name:
+                bad.add(n.name)
+            elif isinstance(n, ast.MatchMapping) and n.rest:
+                bad.add(n.rest)
+        for name, vals in binds.items():
+            if len(vals) != 1 or name in bad or stores.get(name) != 1:
+                continue
+            v = vals[0]
+            if isinstance(v, ast.Constant) or (isinstance(v, (ast.Attribute, ast.Name)) and dotted(v) is not None):
+                hit[name] = v
+    try:
+        ctx._c02_aliases = hit
+    except Exception:
+        pass
+    return hit
+
+
+def _unalias(ctx, e, depth=0):
+    """`e`, or - for a bare name that is a module-level constant alias (`_aliases`) - the expression it stands for
+    (alias chains followed)."""
+    while isinstance(e, ast.Name) and depth < 6:
+        v = _aliases(ctx).get(e.id)
+        if v is None:
+            break
+        e, depth = v, depth + 1
+    return e
+
+
 def _cv(ctx, e):
     """Canonical constant of an expression: (typename, value) for literals and for members of the C-defined enums
-    (a member equals its integer value), else None."""
+    (a member equals its integer value; a module-level constant alias of a member or literal is that constant), else
+    None."""
+    e = _unalias(ctx, e)
     try:
         v = const_eval(e)
     except Exception:
@@ -721,15 +797,18 @@ def run(ctx):
         "entered with bound arguments), CFG exit/yield/terminator/seek-back analysis of iter_settings, a path walk of one iteration "
         "of its parse loop under the scenario 'the record at the cursor has index 0' (no path may reach a yield or the next record, "
         "whatever the other fields and the trailing bytes are), index-36 and "
-        "User-Agent guards from dominating branch facts, a length-domain upper bound on the bytes the User-Agent continuation can "
+        "User-Agent guards from dominating branch facts (enum members and literals also when named by a single-definition "
+        "module-level constant of beacon.py), a length-domain upper bound on the bytes the User-Agent continuation can "
         "append per record (must not be finite), cardinality classes (per record / per distinct key) of the arguments of every "
         "positional pairing (zip, multi-iterable map) a cached view is assembled with, and the SETTING_* key vocabulary used "
         "across the package."
     )
     rep.not_decided = ["the numeric values themselves", "alias-name choice for duplicated enum values (16/17/48)", "trailing bytes: only that a zero index ends the iteration whatever follows it (R5), not where the stream is left",
                        "views that are not computed by settings_map and contain no record/key pairing (undecided)",
-                       "that the User-Agent continuation stops exactly at the NUL (only that no constant bounds it)"]
+                       "that the User-Agent continuation stops exactly at the NUL (only that no constant bounds it)",
+                       "index-36 / User-Agent guards that compare the index, type or length with a value that is not a constant of beacon.py (undecided)"]
     rep.trusted_base = ["CPython ast", "networkx dominators", "C-definition parser (csverif.cdefs)", "dissect.cstruct parses fields in declaration order",
+                        "a module-level name of beacon.py that is bound once and never rebound in the module is not rebound from outside the module",
                         "dissect.cstruct: the truth value of a structure instance depends on all of its fields (or is constant), never on the first field alone"]
     r1(ctx)
     r2_r4(ctx)
@@ -1955,7 +2034,9 @@ def r5_r6(ctx):
     base_funcs = set(_baseline().get(f.module.name, {}).get("functions", []))
     new_helpers = [dotted(c.func) for c in fn_calls(f.node) if dotted(c.func) in f.module.funcs and dotted(c.func) not in base_funcs]
     # an edge case handled "elsewhere": the member is still mentioned, or a helper the normaliser could not inline is called
-    mentions = lambda name: bool(new_helpers) or any(isinstance(n, ast.Attribute) and n.attr == name for n in ast.walk(f.node))  # noqa: E731
+    mentions = lambda name: bool(new_helpers) or any(  # noqa: E731
+        (isinstance(n, ast.Attribute) and n.attr == name) or (isinstance(n, ast.Name) and (dotted(_unalias(ctx, n)) or "").split(".")[-1] == name)
+        for n in ast.walk(f.node))
     # index 36: renamed to the deprecated INJECT_OPTIONS exactly under index == 36 and type == TYPE_SHORT
     ren = [s for s in ast.walk(loop) if isinstance(s, (ast.Assign, ast.AnnAssign)) and s.value is not None
            and any(dotted(t) == f"{sname}.index" for t in (s.targets if isinstance(s, ast.Assign) else [s.target]))]
@@ -1971,12 +2052,12 @@ def r5_r6(ctx):
         for s in ren:
             v = inline(f.node, s.value, stop=stop)
             facts = _facts_at(ctx, f, s, stop)
-            if dotted(v) != "DeprecatedBeaconSetting.SETTING_INJECT_OPTIONS":
+            if ".".join((dotted(_unalias(ctx, v)) or "").split(".")[-2:]) != "DeprecatedBeaconSetting.SETTING_INJECT_OPTIONS":
                 agg.add(None if _cv(ctx, v) is None else False, f"{sname}.index is set to `{src(v)}`")
                 continue
-            g1 = facts.get(("eq", f"{sname}.index", ("int", 36))) is True
-            g2 = st_short is not None and facts.get(("eq", f"{sname}.type", ("int", st_short))) is True
-            agg.add(g1 and g2, f"rename to INJECT_OPTIONS guarded by index==WATERMARKHASH(36)={g1}, type==TYPE_SHORT={g2} (must hold for exactly these records)")
+            g1 = _guarded_eq(facts, f"{sname}.index", ("int", 36))
+            g2 = False if st_short is None else _guarded_eq(facts, f"{sname}.type", ("int", st_short))
+            agg.add(_and3(g1, g2), f"rename to INJECT_OPTIONS guarded by index==WATERMARKHASH(36)={_tv(g1)}, type==TYPE_SHORT={_tv(g2)} (must hold for exactly these records)")
         agg.emit(ctx, "R6", "DOM", f, text, "index 36 is renamed to INJECT_OPTIONS only under index==WATERMARKHASH and type==TYPE_SHORT", loop)
     # over-long User-Agent: the value is extended only for index == USERAGENT and length == 0x80
     ext = []
@@ -1995,9 +2076,9 @@ def r5_r6(ctx):
         agg = _Agg()
         for s in ext:
             facts = _facts_at(ctx, f, s, stop)
-            g1 = facts.get(("eq", f"{sname}.index", ("int", bs.get("SETTING_USERAGENT")))) is True
-            g2 = facts.get(("eq", f"{sname}.length", ("int", 0x80))) is True
-            agg.add(g1 and g2, f"extension of {sname}.value guarded by index==USERAGENT={g1}, length==0x80={g2}")
+            g1 = _guarded_eq(facts, f"{sname}.index", ("int", bs.get("SETTING_USERAGENT")))
+            g2 = _guarded_eq(facts, f"{sname}.length", ("int", 0x80))
+            agg.add(_and3(g1, g2), f"extension of {sname}.value guarded by index==USERAGENT={_tv(g1)}, length==0x80={_tv(g2)}")
         agg.emit(ctx, "R6", "DOM", f, text, f"{sname}.value is extended only under index==USERAGENT and length==0x80 ({len(ext)} site(s))", loop)
         ctx.rep.count("iter_settings_value_extensions", len(ext), floor=1)
     # the continuation reaches a NUL at any distance: no constant bounds the number of bytes appended per record
@@ -2027,6 +2108,27 @@ def r5_r6(ctx):
     else:
         ctx.ob("R6", "ABS", f, text, False, f"the continuation appends at most {total} byte(s) per record ({'; '.join(parts)}): a User-Agent whose NUL lies farther away is cut "
                "off and the following records are parsed from the middle of the string", ext[0])
+
+
+def _guarded_eq(facts, subj, want):
+    """Do the dominating facts establish `subj == want`?  True: they do.  False: they do not - `subj` is compared with
+    constants only (or not at all), so the site is reached with other values of it.  None: `subj` is established equal
+    to a term that is not a constant of the code (a parameter, an attribute, a name of another module ...) - what the
+    guard selects cannot be told from the source at hand."""
+    if facts.get(("eq", subj, want)) is True:
+        return True
+    for k, v in facts.items():
+        if v is True and k[0] == "t" and " == " in k[1] and subj in k[1].split(" == "):
+            return None
+    return False
+
+
+def _and3(a, b):
+    return False if a is False or b is False else None if a is None or b is None else True
+
+
+def _tv(v):
+    return "not understood" if v is None else v
 
 
 # ---- abstract length domain N u {inf} (None = not understood); transfer rules = lemma L5 of the module docstring
